@@ -3,6 +3,7 @@ package wm
 import (
 	"go/token"
 	"go/types"
+	"strings"
 
 	"golang.org/x/tools/go/ssa"
 )
@@ -236,7 +237,9 @@ func (c *Check) routerRoles2(id string) *RouterRoles2 {
 	for _, d := range CallsTo(r.StartLit, nWGDone) {
 		r.WLoop = r.LA.LockID(Receiver(d))
 	}
-	if !c.Floor(id, "wait groups: in-flight invocations (Add before go dispatch) and handler loops (Done after the run loop)", b2i(r.WRun != "")+b2i(r.WLoop != "" && r.WLoop != r.WRun), 2) {
+	// (the wiring and middleware properties do not use the wait groups: their role lookup does not depend on them)
+	needWG := !(strings.HasPrefix(id, "C08") || strings.HasPrefix(id, "C09") || strings.HasSuffix(id, ".M09"))
+	if needWG && !c.Floor(id, "wait groups: in-flight invocations (Add before go dispatch) and handler loops (Done after the run loop)", b2i(r.WRun != "")+b2i(r.WLoop != "" && r.WLoop != r.WRun), 2) {
 		return nil
 	}
 	return r
